@@ -109,8 +109,26 @@ fn base64(data: &[u8]) -> String {
 
 unsafe extern "C" {
     fn ioctl(fd: i32, request: u64, ...) -> i32;
+    fn setsockopt(fd: i32, level: i32, name: i32, value: *const Linger, len: u32) -> i32;
 }
 const TIOCOUTQ: u64 = 0x5411;
+const SOL_SOCKET: i32 = 1;
+const SO_LINGER: i32 = 13;
+
+#[repr(C)]
+struct Linger {
+    l_onoff: i32,
+    l_linger: i32,
+}
+
+/// Close with a reset instead of the FIN handshake: tens of thousands of loop-back connections per minute
+/// would otherwise exhaust the ephemeral ports with TIME_WAIT sockets.
+fn abort(s: TcpStream) {
+    let l = Linger { l_onoff: 1, l_linger: 0 };
+    let rc = unsafe { setsockopt(s.as_raw_fd(), SOL_SOCKET, SO_LINGER, &l, std::mem::size_of::<Linger>() as u32) };
+    assert!(rc == 0, "setsockopt SO_LINGER failed");
+    drop(s);
+}
 
 /// bytes written to `s` that the peer's TCP has not acknowledged yet
 fn unacked(s: &TcpStream) -> i32 {
@@ -122,7 +140,10 @@ fn unacked(s: &TcpStream) -> i32 {
 
 enum Cmd {
     Write(Vec<u8>),
+    /// end of stream (FIN); the socket stays until `Abort`
     Finish,
+    /// the run is over: reset the connection
+    Abort,
 }
 
 fn server(listener: TcpListener, rx: mpsc::Receiver<Cmd>, ack: mpsc::Sender<()>) {
@@ -164,10 +185,10 @@ fn server(listener: TcpListener, rx: mpsc::Receiver<Cmd>, ack: mpsc::Sender<()>)
             Cmd::Finish => {
                 s.shutdown(std::net::Shutdown::Write).ok();
                 ack.send(()).ok();
-                // swallow whatever the client still sends (pongs, close) until it hangs up, so that the
-                // kernel never answers unread data with a reset
-                let mut sink = [0u8; 1024];
-                while matches!(s.read(&mut sink), Ok(n) if n > 0) {}
+            }
+            Cmd::Abort => {
+                abort(s);
+                ack.send(()).ok();
                 return;
             }
         }
@@ -486,6 +507,9 @@ where
             }
             None => "eof".into(),
         };
+        // the harness has read all it wants: reset the connection from the venue's side, then let go
+        tx.send(Cmd::Abort).unwrap();
+        ack_rx.recv().unwrap();
         drop(ws);
         (r, sent.get(), first_left)
     });
@@ -861,11 +885,30 @@ fn generate(seed: u64, n_cases: usize, tier: &str) {
     out.flush();
 }
 
+/// `c13s probe`: what the real deserialisers make of a few payloads (facts quoted in the report; not part
+/// of the check)
+fn probe() {
+    use barter_data::exchange::{binance::subscription::BinanceSubResponse, gateio::subscription::GateioSubResponse};
+    use barter_integration::Validator;
+    let gate_fail = documented_json("gateio", false);
+    println!(
+        "gateio documented failure payload -> {:?}",
+        serde_json::from_str::<GateioSubResponse>(gate_fail).map(|r| r.validate().is_ok()).map_err(|e| e.to_string())
+    );
+    for j in [r#"{"id":5}"#, r#"{"e":"trade","id":7,"s":"BTCUSDT"}"#] {
+        println!(
+            "binance {j} -> {:?}",
+            serde_json::from_str::<BinanceSubResponse>(j).map(|r| r.validate().is_ok()).map_err(|e| e.to_string())
+        );
+    }
+}
+
 fn main() {
     let a = args();
     match a.cmd.as_str() {
         "gen" => generate(a.seed, a.n, &a.tier),
         "run" => run(),
+        "probe" => probe(),
         _ => {
             eprintln!("usage: c13s gen <seed> <n> <tier> | run < cases");
             std::process::exit(2)
